@@ -75,6 +75,10 @@ type Script struct {
 //	dup       A=k
 //	defer     A=k                                move the k-th pending message to the back
 //	pump      A=max                              deliver FIFO until quiet or max
+//	hold      A=k                                delay the k-th pending message (held-back pool, untouched by pump)
+//	holdto    A=store B=region                   delay every pending message addressed to that store
+//	release                                      put the held-back messages in front of the queue
+//	split     A=region                           ProposeSplit of (original) region A at its believed leader
 //	isolate   A=store B=region                   partition {A | others} (replaces a previous one)
 //	heal
 //	campaign  A=store B=region
@@ -219,6 +223,8 @@ type world struct {
 	lastLdr map[uint64][2]uint64 // region -> (store, term) last believed
 	dirs    []func()
 	wg      sync.WaitGroup
+	splits  map[uint64][]string // original region id -> split keys proposed so far (descending)
+	nsplit  int
 }
 
 const (
@@ -361,7 +367,31 @@ func (w *world) run(tmp func(string) (string, func())) error {
 	// epilogue: heal, let the cluster converge, expire what is still pending.
 	w.step.Store(int64(len(sc.Steps) + 1))
 	w.iso = -1
+	w.c.Net.Release()
 	for i := 0; i < 12; i++ {
+		w.tickLeaders(3, 2)
+		w.pump(20000)
+	}
+	// barrier: one more command per region at a (possibly freshly elected) leader.
+	// Every replica that applies it must have applied everything acknowledged
+	// before, which turns a command missing at the tail of a replica's sequence
+	// into a divergence the prefix comparison sees.
+	for r := 0; r < sc.Regions; r++ {
+		region := uint64(r + 1)
+		for s := 0; s < 3 && len(w.claims(region)) == 0; s++ {
+			if n := w.c.Nodes[s]; n.Store != nil && n.RegionPeer(region) != nil {
+				_ = n.Campaign(region)
+				w.pump(20000)
+			}
+		}
+		if len(w.claims(region)) == 0 {
+			w.tr.label("epilogue:no-leader")
+			continue
+		}
+		w.prewrite(Step{Op: "prewrite", A: 3, B: r, C: -1})
+		w.pump(20000)
+	}
+	for i := 0; i < 4; i++ {
 		w.tickLeaders(3, 2)
 		w.pump(20000)
 	}
@@ -566,6 +596,22 @@ func (w *world) do(st Step) error {
 	case "pump":
 		w.pump(1 + mod(st.A, 400))
 		w.tr.label("step:pump")
+	case "hold":
+		if p := net.Pending(); p > 0 {
+			net.Hold(mod(st.A, p))
+			w.tr.label("step:hold")
+		}
+	case "holdto":
+		s := w.sel(st.A, uint64(1+mod(st.B, w.sc.Regions)))
+		if k := net.HoldIf(func(m myraft.Message) bool { return int(m.To%peerBase)-1 == s }); k > 0 {
+			w.tr.label("step:hold")
+		}
+	case "release":
+		if net.Release() > 0 {
+			w.tr.label("step:release")
+		}
+	case "split":
+		w.split(mod(st.A, w.sc.Regions))
 	case "isolate":
 		w.iso = w.sel(st.A, uint64(1+mod(st.B, w.sc.Regions)))
 		w.tr.label("step:partition")
@@ -614,6 +660,57 @@ func (w *world) do(st Step) error {
 		w.tr.label("step:unknown")
 	}
 	return nil
+}
+
+// splitKeys are the keys original region r can be split at, in the order they
+// are used: strictly descending and above every data key, so a split stays
+// valid whichever of the earlier splits were committed, and no data key ever
+// changes its region.
+func splitKeys(r int) []string {
+	if r == 0 {
+		return []string{"l", "k", "j", "i", "h", "g", "f", "e"}
+	}
+	return []string{"y", "x", "w", "v", "u", "t", "s", "r"}
+}
+
+// split proposes a split of original region r (0-based) at its believed leader,
+// the way an operator / scheduler would: child = [key, parent's current end).
+func (w *world) split(r int) {
+	region := uint64(r + 1)
+	if w.splits == nil {
+		w.splits = map[uint64][]string{}
+	}
+	keys := splitKeys(r)
+	if len(w.splits[region]) >= len(keys) {
+		w.tr.label("skip:split-keys-exhausted")
+		return
+	}
+	l := w.sel(3, region)
+	st := w.c.Nodes[l].Store
+	if st == nil {
+		return
+	}
+	parent, ok := st.RegionMetaByID(region)
+	if !ok {
+		return
+	}
+	key := keys[len(w.splits[region])]
+	if string(parent.EndKey) <= key {
+		w.tr.label("skip:split-not-inside")
+		return
+	}
+	w.nsplit++
+	child := manifest.RegionMeta{ID: uint64(10 + w.nsplit), StartKey: []byte(key), EndKey: append([]byte(nil), parent.EndKey...),
+		Epoch: manifest.RegionEpoch{Version: 1, ConfVersion: 1}, State: manifest.RegionStateRunning}
+	for s := 1; s <= 3; s++ {
+		child.Peers = append(child.Peers, manifest.PeerMeta{StoreID: uint64(s), PeerID: child.ID*peerBase + uint64(s)})
+	}
+	if err := st.ProposeSplit(region, child, []byte(key)); err != nil {
+		w.tr.label("split:refused")
+		return
+	}
+	w.splits[region] = append(w.splits[region], key)
+	w.tr.label("step:split")
 }
 
 func (w *world) restart(s int) {
@@ -675,8 +772,16 @@ func CmdHash(req *pb.RaftCmdRequest) string {
 
 // ---------------------------------------------------------------- client calls
 
-func (w *world) header(region uint64, id int) *pb.CmdHeader {
-	h := &pb.CmdHeader{RegionId: region, RegionEpoch: &pb.RegionEpoch{Version: 1, ConfVer: 1}}
+// header builds the request header a freshly routed client would send to store
+// s: the epoch is the one that store's catalog currently holds for the region.
+func (w *world) header(s int, region uint64, id int) *pb.CmdHeader {
+	ep := &pb.RegionEpoch{Version: 1, ConfVer: 1}
+	if st := w.c.Nodes[s].Store; st != nil {
+		if meta, ok := st.RegionMetaByID(region); ok {
+			ep = &pb.RegionEpoch{Version: meta.Epoch.Version, ConfVer: meta.Epoch.ConfVersion}
+		}
+	}
+	h := &pb.CmdHeader{RegionId: region, RegionEpoch: ep}
 	if w.sc.UniqueIDs {
 		h.RequestId = 1<<40 + uint64(id)
 	}
@@ -687,7 +792,7 @@ func (w *world) call(o *ClientOp, req *pb.RaftCmdRequest, read bool) {
 	s := int(o.Store - 1)
 	n := w.c.Nodes[s]
 	o.ID = len(w.tr.Ops)
-	req.Header = w.header(o.Region, o.ID)
+	req.Header = w.header(s, o.Region, o.ID)
 	o.Hash = CmdHash(req)
 	o.Inc = w.inc[s]
 	o.Invoke = int(w.step.Load()) * 2
